@@ -1776,8 +1776,13 @@ class BaseBosonicState(BaseState):
 
         rho = 0
         for i in range(self.num_weights):
+            # thewalrus expects the (x_1,...,x_N,p_1,...,p_N) ordering
             rho += weights[i] * twq.density_matrix(
-                mus[i], covs[i], hbar=self._hbar, normalize=False, cutoff=cutoff
+                xpxp_to_xxpp(mus[i]),
+                xpxp_to_xxpp(covs[i]),
+                hbar=self._hbar,
+                normalize=False,
+                cutoff=cutoff,
             )
         return rho
 
@@ -1897,8 +1902,9 @@ class BaseBosonicState(BaseState):
 
         prob = 0
         for i in range(self.num_weights):
+            # thewalrus expects the (x_1,...,x_N,p_1,...,p_N) ordering
             prob += self._weights[i] * twq.density_matrix_element(
-                self._mus[i], self._covs[i], n, n, hbar=self._hbar
+                xpxp_to_xxpp(self._mus[i]), xpxp_to_xxpp(self._covs[i]), n, n, hbar=self._hbar
             )
         return prob.real
 
